@@ -51,13 +51,13 @@ def cases(tier, seed):
                         a, b, n = ws[i]
                         if flips[k]:
                             a, b = b, a
-                        w = geom.wire(a, b, n, 1e-3)
+                        w = geom.wire(a, b, n, 1e-4 * geom.C_MININEC / f)
                         if tags is not None and tags[k] is not None:
                             w['tag'] = tags[k]
                         wires.append(w)
                     yield dict(kind='wires', env=env, f=f, wires=wires, name='S%d|%s|%s|%s' % (si, order, flips, tags))
     # arc + helix + wire, explicit / sparse tags, all listing orders are equivalent on the command line (kinds are separate options)
-    rot, sc, f = geom.variant(seed)
+    f = 14.2          # fixed geometry in metres: fixed frequency (segments stay short whatever the seed)
     for tags in ((1, 2, 3), (3, 1, 2), (2, 3, 1), (5, 9, 2), None):
         for wflip in (0, 1):
             arc = dict(kind='arc', n=4, radius=0.5, ang1=0., ang2=90., r=1e-3)
